@@ -150,6 +150,14 @@ Definition errors_surface : bool :=
   forallb (fun e => smem e worker_reraises && smem e extract_reraises) check_reraises.
 Definition swallows (q : pquirks) : bool := q_worker_swallows_errors q && negb errors_surface.
 
+(* what a task sends back for the outcome `r` of lint_file (None = lint_file raised): None = the exception leaves the worker *)
+Definition worker_result (q : pquirks) (r : option (list violation)) : option (list pydict) :=
+  let on_error := if swallows q then Some [] else None in
+  match r with
+  | None => on_error
+  | Some vs => match mapM to_dict vs with Some ds => Some ds | None => on_error end
+  end.
+
 (* ---------- the orchestrator ---------- *)
 Section Orch.
   Variables file evidence : Type.
@@ -165,13 +173,9 @@ Section Orch.
     | Some vss => Some (List.concat vss ++ report (map collect files))
     end.
 
-  (* _lint_file_worker: fresh Orchestrator, lint_file, to_dict of every violation; `except Exception: return []` *)
-  Definition worker (q : pquirks) (f : file) : option (list pydict) :=
-    let on_error := if swallows q then Some [] else None in
-    match perfile f with
-    | None => on_error
-    | Some vs => match mapM to_dict vs with Some ds => Some ds | None => on_error end
-    end.
+  (* _lint_file_worker: fresh Orchestrator, lint_file, to_dict of every violation; `except Exception: return []`
+     unless the handlers re-raise (see `swallows`) *)
+  Definition worker (q : pquirks) (f : file) : option (list pydict) := worker_result q (perfile f).
 
   (* _extract_violations_from_future: from_dict of every dictionary; `except Exception: return []` *)
   Definition extract (fut : list pydict) : list violation :=
@@ -203,6 +207,53 @@ Section Orch.
            end
     end.
 End Orch.
+
+(* ---------- the directory entry points ---------- *)
+(* lint_directory / lint_directory_parallel: the same runs on the files _collect_files_fast yields (Gen: seq_entry_points,
+   dir_parallel_collects_then_lint_files_parallel); which files that walk yields is the matter of C14 *)
+Section Dir.
+  Variables file evidence dir : Type.
+  Variable perfile : file -> option (list violation).
+  Variable collect : file -> evidence.
+  Variable report : list evidence -> list violation.
+  Variable parent_sees : file -> bool.
+  Variable walk : dir -> bool -> list file.
+
+  Definition dir_seq_run (d : dir) (recursive : bool) : option (list violation) :=
+    seq_run file evidence perfile collect report (walk d recursive).
+
+  Definition dir_par_run (q : pquirks) (mw : option nat) (cpu : nat) (sched : list nat) (d : dir) (recursive : bool)
+    : option (list violation) :=
+    par_run file evidence perfile collect report parent_sees q mw cpu sched (walk d recursive).
+End Dir.
+
+(* ---------- several targets ---------- *)
+(* execute_linting_on_paths: the file targets form one group, every directory target another; one
+   lint_files[_parallel] / lint_directory[_parallel] call per group on the same Orchestrator, results appended; an
+   exception in any group aborts the command.  (That a call leaves nothing behind for the next one is C08 / C10.) *)
+Fixpoint concat_opt (l : list (option (list violation))) : option (list violation) :=
+  match l with
+  | [] => Some []
+  | None :: _ => None
+  | Some x :: r => match concat_opt r with None => None | Some y => Some (x ++ y) end
+  end.
+
+Section Groups.
+  Variables file evidence : Type.
+  Variable perfile : file -> option (list violation).
+  Variable collect : file -> evidence.
+  Variable report : list evidence -> list violation.
+  Variable parent_sees : file -> bool.
+
+  Definition groups_seq_run (groups : list (list file)) : option (list violation) :=
+    concat_opt (map (seq_run file evidence perfile collect report) groups).
+
+  (* `scheds`: the completion order of the futures of each group *)
+  Definition groups_par_run (q : pquirks) (mw : option nat) (cpu : nat) (scheds : list (list nat)) (groups : list (list file))
+    : option (list violation) :=
+    concat_opt (map (fun sg : list nat * list file => par_run file evidence perfile collect report parent_sees q mw cpu (fst sg) (snd sg))
+                    (combine scheds groups)).
+End Groups.
 
 (* ---------- what the CLI makes of a result ---------- *)
 Definition rule_id_of (v : violation) : string :=
